@@ -426,9 +426,9 @@ def c09Model (w : World) : C09Obs :=
       let f := fileOf r
       let members (o : Nat) := oneofMembers r.file r.path h.fields o
       (⟨r, h.mapEntry, h.mapEntry,
-        ((List.range h.oneofs.length).map members).flatten,
+        sortRefs ((List.range h.oneofs.length).map members).flatten,       -- derived listings are compared as sets
         (idx h.fields).filterMap (fun (i, fd) => if fd.oneofIndex.isNone then some ⟨r.file, r.path ++ [2, i]⟩ else none),
-        ((List.range h.oneofs.length).filter (pgsSynthetic f h)).map members |>.flatten,
+        sortRefs (((List.range h.oneofs.length).filter (pgsSynthetic f h)).map members |>.flatten),
         ((List.range h.oneofs.length).filter (fun o => !pgsSynthetic f h o)).map (fun o => ⟨r.file, r.path ++ [8, o]⟩),
         childRefs r.file r.path 2 h.fields.length⟩ : MsgPres)
     ⟨false, w.files.map pgsSyntax, fields.mergeSort (fun a b => refLe a.ref b.ref),
